@@ -1,3 +1,669 @@
+//! C21 — language-server answers match a fresh server on the same effective contents.
+//!
+//! Domain: histories over four files of didOpen / didChange / didClose notifications (the public
+//! handlers, called with an `LspState`), on-disk writes and deletions of those files and in-place
+//! schema edits (applied to a real directory and delivered as the notify events inotify produces
+//! for them, through the product's `categorize_and_filter_events` and `update_sources`, i.e. the
+//! file-system arm of the server loop), garbage collections, and queries: `validate_entire_schema`
+//! diagnostics (+ the publishDiagnostics parameters), semantic tokens, formatting, hover and
+//! go-to-definition at generated positions.
+//! Oracle (differential): each answer equals the answer of a FRESH `CompilerState` on the files
+//! now on disk with the currently open buffers inserted (didOpen) before the query.
+use std::collections::{BTreeMap, BTreeSet};
+use std::path::{Path, PathBuf};
+use std::str::FromStr;
+use std::sync::atomic::{AtomicUsize, Ordering};
+use std::time::Instant;
+
+use common_lang_types::CurrentWorkingDirectory;
+use isograph_compiler::verif::categorize_and_filter_events;
+use isograph_compiler::{CompilerState, update_sources};
+use isograph_config::{CompilerConfig, create_config};
+use isograph_lsp::text_document::{on_did_change_text_document, on_did_close_text_document, on_did_open_text_document};
+use isograph_lsp::verif::{LspState, iso_diagnostics_to_params, on_format, on_goto_definition, on_hover, on_semantic_token_full_request};
+use isograph_schema::validate_entire_schema;
+use lsp_types::{
+    DidChangeTextDocumentParams, DidCloseTextDocumentParams, DidOpenTextDocumentParams, DocumentFormattingParams,
+    FormattingOptions, GotoDefinitionParams, HoverParams, Position, SemanticTokensParams, TextDocumentContentChangeEvent,
+    TextDocumentIdentifier, TextDocumentItem, TextDocumentPositionParams, Uri, VersionedTextDocumentIdentifier,
+};
+use notify::event::{CreateKind, DataChange, ModifyKind, RemoveKind};
+use notify::{Event, EventKind};
+use notify_debouncer_full::DebouncedEvent;
+use pico::Database;
+use proptest::prelude::*;
+use serde_json::{Value, json};
+use vcore::{Args, Fail, Report};
+use watch::project::{self, Unit};
+use watch::session::{Profile, panic_class, project_cwd, render_diagnostics, write_initial_tree};
+
+const FILES: [&str; 4] = ["src/home.ts", "src/a/x.ts", "src/ab/x.ts", "src/new.ts"];
+
+#[derive(Clone, Debug, PartialEq, Eq, Hash)]
+enum QueryKind {
+    Validate,
+    Tokens,
+    Format,
+    Hover(u16),
+    Goto(u16),
+}
+
+#[derive(Clone, Debug, PartialEq, Eq, Hash)]
+enum Step {
+    Open { file: u8, text: String },
+    Change { file: u8, text: String },
+    Close { file: u8 },
+    DiskWrite { file: u8, text: String },
+    DiskDelete { file: u8 },
+    Schema { variant: u8 },
+    Ext { variant: u8 },
+    Gc,
+    Query { file: u8, kind: QueryKind },
+}
+
+/// File `i` only defines fields named `F<i>` (so no field is defined in two files: which of two
+/// definitions wins depends on HashMap order even between two fresh servers) and may select the
+/// client fields of the files before it.
+fn file_text(file: u8, units: &[Unit]) -> String {
+    let units: Vec<Unit> = units
+        .iter()
+        .map(|u| match u {
+            Unit::Field { ty, component, sels, .. } => Unit::Field { ty: *ty, name: file, component: *component, sels: sels.clone() },
+            Unit::Commented { .. } => Unit::Commented { name: file },
+            // the same entrypoint declared in two files is reported at one of them, by hash order
+            Unit::Entrypoint { .. } => Unit::Entrypoint { name: file },
+            other => other.clone(),
+        })
+        .collect();
+    project::render_source(&units)
+}
+
+/// The initial project: the C20 one with the per-file field names of this check.
+fn initial_files() -> Vec<(&'static str, String)> {
+    use watch::project::Sel;
+    let field = |ty: u8, sels: Vec<Sel>| Unit::Field { ty, name: 0, component: false, sels };
+    let mut files: Vec<(&'static str, String)> =
+        project::initial_files().into_iter().filter(|(p, _)| !p.starts_with("src/")).collect();
+    files.push((FILES[0], file_text(0, &[field(0, vec![Sel::Scalar(0), Sel::Linked(0, vec![Sel::Scalar(1)])]), Unit::Entrypoint { name: 0 }])));
+    files.push((FILES[1], file_text(1, &[field(1, vec![Sel::Scalar(1), Sel::Scalar(2)])])));
+    files.push((FILES[2], file_text(2, &[field(2, vec![Sel::Scalar(1)])])));
+    files
+}
+
+fn text_for(file: u8) -> impl Strategy<Value = String> {
+    project::units().prop_map(move |u| file_text(file, &u))
+}
+
+fn file_and_text() -> impl Strategy<Value = (u8, String)> {
+    (0u8..FILES.len() as u8).prop_flat_map(|f| (Just(f), text_for(f)))
+}
+
+fn query_kind() -> impl Strategy<Value = QueryKind> {
+    prop_oneof![
+        4 => Just(QueryKind::Validate),
+        2 => Just(QueryKind::Tokens),
+        2 => Just(QueryKind::Format),
+        3 => any::<u16>().prop_map(QueryKind::Hover),
+        3 => any::<u16>().prop_map(QueryKind::Goto),
+    ]
+}
+
+fn step() -> impl Strategy<Value = Step> {
+    let f = 0u8..FILES.len() as u8;
+    prop_oneof![
+        5 => file_and_text().prop_map(|(file, text)| Step::Open { file, text }),
+        6 => file_and_text().prop_map(|(file, text)| Step::Change { file, text }),
+        4 => f.clone().prop_map(|file| Step::Close { file }),
+        5 => file_and_text().prop_map(|(file, text)| Step::DiskWrite { file, text }),
+        1 => f.clone().prop_map(|file| Step::DiskDelete { file }),
+        1 => (0u8..4).prop_map(|variant| Step::Schema { variant }),
+        1 => (0u8..3).prop_map(|variant| Step::Ext { variant }),
+        1 => Just(Step::Gc),
+        12 => (f, query_kind()).prop_map(|(file, kind)| Step::Query { file, kind }),
+    ]
+}
+
+fn history() -> impl Strategy<Value = Vec<Step>> {
+    prop::collection::vec(step(), 2..14)
+}
+
+// ---------------------------------------------------------------------------------------------
+
+fn uri_of(root: &Path, rel: &str) -> Uri {
+    Uri::from_str(&format!("file://{}", root.join(rel).display())).expect("uri")
+}
+
+fn tdi(root: &Path, rel: &str) -> TextDocumentIdentifier {
+    TextDocumentIdentifier { uri: uri_of(root, rel) }
+}
+
+struct Server<'a> {
+    lsp: LspState<'a, Profile>,
+    root: PathBuf,
+}
+
+impl<'a> Server<'a> {
+    fn new(config: &CompilerConfig, cwd: CurrentWorkingDirectory, root: &Path, sender: &'a crossbeam::channel::Sender<lsp_server::Message>) -> Result<Self, String> {
+        let state = CompilerState::<Profile>::new(config.clone(), cwd).map_err(|e| e.to_string())?;
+        Ok(Server { lsp: LspState::new(state, sender), root: root.to_path_buf() })
+    }
+
+    fn open(&mut self, rel: &str, text: &str) {
+        let _ = on_did_open_text_document(
+            &mut self.lsp,
+            DidOpenTextDocumentParams {
+                text_document: TextDocumentItem { uri: uri_of(&self.root, rel), language_id: "typescript".into(), version: 1, text: text.to_string() },
+            },
+        );
+    }
+
+    fn change(&mut self, rel: &str, text: &str) {
+        let _ = on_did_change_text_document(
+            &mut self.lsp,
+            DidChangeTextDocumentParams {
+                text_document: VersionedTextDocumentIdentifier { uri: uri_of(&self.root, rel), version: 2 },
+                content_changes: vec![TextDocumentContentChangeEvent { range: None, range_length: None, text: text.to_string() }],
+            },
+        );
+    }
+
+    fn close(&mut self, rel: &str) {
+        let _ = on_did_close_text_document(&mut self.lsp, DidCloseTextDocumentParams { text_document: tdi(&self.root, rel) });
+    }
+
+    /// One answer, as JSON (a panic of the handler is an answer too: `{"panic": where}`).
+    fn query(&self, rel: &str, kind: &QueryKind, position: Position) -> Value {
+        let root = self.root.clone();
+        let lsp = &self.lsp;
+        let pos_params = || TextDocumentPositionParams { text_document: tdi(&root, rel), position };
+        let r = vcore::catch_panic(|| -> Value {
+            fn show<T: serde::Serialize>(r: Result<T, isograph_lsp::lsp_runtime_error::LSPRuntimeError>) -> Value {
+                match r {
+                    Ok(v) => json!({"ok": serde_json::to_value(v).unwrap_or(Value::Null)}),
+                    Err(e) => json!({"err": format!("{e:?}")}),
+                }
+            }
+            match kind {
+                QueryKind::Validate => {
+                    let db = &lsp.compiler_state.db;
+                    let diagnostics = match validate_entire_schema(db) {
+                        Ok(_) => vec![],
+                        Err(e) => e.clone(),
+                    };
+                    let (params, _) = iso_diagnostics_to_params(db, &diagnostics, BTreeSet::new());
+                    json!({
+                        "diagnostics": render_diagnostics(db, &diagnostics, &root),
+                        "published": serde_json::to_value(params).unwrap_or(Value::Null),
+                    })
+                }
+                QueryKind::Tokens => show(on_semantic_token_full_request(
+                    lsp,
+                    SemanticTokensParams {
+                        work_done_progress_params: Default::default(),
+                        partial_result_params: Default::default(),
+                        text_document: tdi(&root, rel),
+                    },
+                )),
+                QueryKind::Format => show(on_format(
+                    lsp,
+                    DocumentFormattingParams {
+                        text_document: tdi(&root, rel),
+                        options: FormattingOptions { tab_size: 2, insert_spaces: true, ..Default::default() },
+                        work_done_progress_params: Default::default(),
+                    },
+                )),
+                QueryKind::Hover(_) => show(on_hover(
+                    lsp,
+                    HoverParams { text_document_position_params: pos_params(), work_done_progress_params: Default::default() },
+                )),
+                QueryKind::Goto(_) => show(on_goto_definition(
+                    lsp,
+                    GotoDefinitionParams {
+                        text_document_position_params: pos_params(),
+                        work_done_progress_params: Default::default(),
+                        partial_result_params: Default::default(),
+                    },
+                )),
+            }
+        });
+        match r {
+            Ok(v) => v,
+            Err(p) => json!({"panic": panic_class(&p), "message": p.split(" @ ").next().unwrap_or("")}),
+        }
+    }
+}
+
+
+// ---------------------------------------------------------------------------------------------
+
+/// The notify events inotify + the debouncer deliver for a plain write / create / delete of a file
+/// (observed in the C20 runs), for the product's own categorisation.
+fn fs_event(path: &Path, kind: EventKind) -> DebouncedEvent {
+    DebouncedEvent::new(Event::new(kind).add_path(path.to_path_buf()), Instant::now())
+}
+
+#[derive(Debug)]
+enum Stop {
+    Fail(Fail),
+    Inconclusive(String),
+}
+
+#[derive(Default)]
+struct Stats {
+    queries: u64,
+    queries_with_dirty_buffer: u64,
+    close_after_change: bool,
+    first_open_after_first_query: bool,
+    live_panics: u64,
+    labels: BTreeSet<String>,
+}
+
+fn offset_to_position(text: &str, offset: usize) -> Position {
+    let before = &text[..offset.min(text.len())];
+    let line = before.matches('\n').count() as u32;
+    let col = before.rsplit('\n').next().unwrap_or("").len() as u32;
+    Position { line, character: col }
+}
+
+/// Positions are biased towards identifiers inside iso literals (every second pick lands on the
+/// start of a word after the first backtick).
+fn pick_position(text: &str, pick: u16) -> Position {
+    if text.is_empty() {
+        return Position { line: 0, character: 0 };
+    }
+    if pick % 2 == 0 {
+        if let Some(first_tick) = text.find('`') {
+            let bytes = text.as_bytes();
+            let starts: Vec<usize> = (first_tick + 1..text.len())
+                .filter(|&i| bytes[i].is_ascii_alphabetic() && !bytes[i - 1].is_ascii_alphanumeric())
+                .collect();
+            if !starts.is_empty() {
+                return offset_to_position(text, starts[vcore::pick_index(pick, starts.len())]);
+            }
+        }
+    }
+    offset_to_position(text, vcore::pick_index(pick, text.len() + 1))
+}
+
+/// `warm_up`: open and close one file before anything else (the generator switch that keeps the
+/// recorded finding `stale-after-first-open` out: the open-file map exists before any memoized
+/// function has run).
+fn run_history(steps: &[Step], root: &Path, warm_up: bool, verbose: bool, stats: &mut Stats) -> Result<(), Stop> {
+    let initial = initial_files();
+    write_initial_tree(root, &initial);
+    let cwd = project_cwd(root);
+    let config = create_config(&root.join("isograph.config.json"), cwd);
+    let (sender, receiver) = crossbeam::channel::unbounded::<lsp_server::Message>();
+    let mut live = Server::new(&config, cwd, root, &sender).map_err(|e| Stop::Inconclusive(format!("initial state: {e}")))?;
+    let mut open: BTreeMap<&'static str, String> = BTreeMap::new();
+    let mut changed_since_open: BTreeSet<&'static str> = BTreeSet::new();
+    let mut queried = false;
+    let mut opened = false;
+    if warm_up {
+        let text = std::fs::read_to_string(root.join(FILES[0])).unwrap_or_default();
+        live.open(FILES[0], &text);
+        live.close(FILES[0]);
+        opened = true;
+    }
+
+    for (i, step) in steps.iter().enumerate() {
+        if verbose {
+            println!("step {i}: {}", step_json(step));
+        }
+        let mut fs_events: Vec<DebouncedEvent> = vec![];
+        match step {
+            Step::Open { file, text } => {
+                let rel = FILES[*file as usize % FILES.len()];
+                if !opened && queried {
+                    stats.first_open_after_first_query = true;
+                }
+                opened = true;
+                live.open(rel, text);
+                open.insert(rel, text.clone());
+                changed_since_open.remove(rel);
+                stats.labels.insert("step:didOpen".into());
+            }
+            Step::Change { file, text } => {
+                let rel = FILES[*file as usize % FILES.len()];
+                // editors only send didChange for documents they have opened
+                if !open.contains_key(rel) {
+                    stats.labels.insert("skipped:didChange-of-closed-document".into());
+                    continue;
+                }
+                live.change(rel, text);
+                open.insert(rel, text.clone());
+                changed_since_open.insert(rel);
+                stats.labels.insert("step:didChange".into());
+            }
+            Step::Close { file } => {
+                let rel = FILES[*file as usize % FILES.len()];
+                if open.remove(rel).is_none() {
+                    stats.labels.insert("skipped:didClose-of-closed-document".into());
+                    continue;
+                }
+                if changed_since_open.remove(rel) {
+                    stats.close_after_change = true;
+                }
+                live.close(rel);
+                stats.labels.insert("step:didClose".into());
+            }
+            Step::DiskWrite { file, text } => {
+                let rel = FILES[*file as usize % FILES.len()];
+                let p = root.join(rel);
+                let existed = p.is_file();
+                std::fs::write(&p, text).map_err(|e| Stop::Inconclusive(format!("write: {e}")))?;
+                fs_events.push(fs_event(&p, if existed { EventKind::Modify(ModifyKind::Data(DataChange::Any)) } else { EventKind::Create(CreateKind::File) }));
+                stats.labels.insert(if existed { "step:disk-modify" } else { "step:disk-create" }.into());
+            }
+            Step::DiskDelete { file } => {
+                let rel = FILES[*file as usize % FILES.len()];
+                let p = root.join(rel);
+                if !p.is_file() {
+                    stats.labels.insert("skipped:delete-of-missing-file".into());
+                    continue;
+                }
+                std::fs::remove_file(&p).map_err(|e| Stop::Inconclusive(format!("rm: {e}")))?;
+                fs_events.push(fs_event(&p, EventKind::Remove(RemoveKind::File)));
+                stats.labels.insert("step:disk-delete".into());
+            }
+            Step::Schema { variant } => {
+                let p = root.join("schema.graphql");
+                std::fs::write(&p, project::schema_text(*variant as usize)).map_err(|e| Stop::Inconclusive(format!("write: {e}")))?;
+                fs_events.push(fs_event(&p, EventKind::Modify(ModifyKind::Data(DataChange::Any))));
+                stats.labels.insert("step:schema-edit".into());
+            }
+            Step::Ext { variant } => {
+                let p = root.join("ext.graphql");
+                std::fs::write(&p, project::ext_text(*variant as usize)).map_err(|e| Stop::Inconclusive(format!("write: {e}")))?;
+                fs_events.push(fs_event(&p, EventKind::Modify(ModifyKind::Data(DataChange::Any))));
+                stats.labels.insert("step:extension-edit".into());
+            }
+            Step::Gc => {
+                live.lsp.compiler_state.db.run_garbage_collection();
+                stats.labels.insert("step:gc".into());
+            }
+            Step::Query { file, kind } => {
+                let rel = FILES[*file as usize % FILES.len()];
+                let effective: String = match open.get(rel) {
+                    Some(t) => t.clone(),
+                    None => std::fs::read_to_string(root.join(rel)).unwrap_or_default(),
+                };
+                let tracked = root.join(rel).is_file();
+                let position = match kind {
+                    QueryKind::Hover(p) | QueryKind::Goto(p) => pick_position(&effective, *p),
+                    _ => Position { line: 0, character: 0 },
+                };
+                let dirty = open.iter().any(|(r, t)| std::fs::read_to_string(root.join(r)).ok().as_deref() != Some(t.as_str()));
+                stats.queries += 1;
+                if dirty {
+                    stats.queries_with_dirty_buffer += 1;
+                }
+                let kind_name = match kind {
+                    QueryKind::Validate => "validate",
+                    QueryKind::Tokens => "semantic-tokens",
+                    QueryKind::Format => "format",
+                    QueryKind::Hover(_) => "hover",
+                    QueryKind::Goto(_) => "goto-definition",
+                };
+                stats.labels.insert(format!("query:{kind_name}"));
+                if !tracked {
+                    stats.labels.insert("query:on-file-missing-on-disk".into());
+                }
+                queried = true;
+
+                let got = live.query(rel, kind, position);
+                // the fresh server: same disk, open buffers inserted before the query
+                let (fsender, _freceiver) = crossbeam::channel::unbounded::<lsp_server::Message>();
+                let fresh_answer = |with_buffers: bool| -> Result<Value, Stop> {
+                    let mut fresh = Server::new(&config, cwd, root, &fsender).map_err(|e| Stop::Inconclusive(format!("fresh state: {e}")))?;
+                    if with_buffers {
+                        for (r, t) in &open {
+                            fresh.open(r, t);
+                        }
+                    }
+                    Ok(fresh.query(rel, kind, position))
+                };
+                let want = fresh_answer(true)?;
+                if verbose {
+                    println!("      {kind_name} {rel} {position:?}: {}", if got == want { "equal" } else { "DIFFERENT" });
+                }
+                if got != want {
+                    let disk_only = fresh_answer(false)?;
+                    let cause = if got.get("panic").is_some() {
+                        format!("live-panic:{}", got["panic"].as_str().unwrap_or("?"))
+                    } else if got == disk_only && !open.is_empty() && stats.first_open_after_first_query {
+                        "stale-after-first-open".to_string()
+                    } else if got == disk_only && !open.is_empty() {
+                        format!("open-buffer-ignored:{kind_name}")
+                    } else {
+                        format!("answer-differs:{kind_name}")
+                    };
+                    return Err(Stop::Fail(Fail::new(
+                        cause,
+                        format!(
+                            "step {i}: {kind_name} on {rel} at {}:{} (open buffers: {:?})\nlive server : {}\nfresh server: {}",
+                            position.line,
+                            position.character,
+                            open.keys().collect::<Vec<_>>(),
+                            truncate(&got.to_string()),
+                            truncate(&want.to_string())
+                        ),
+                    )));
+                }
+                if got.get("panic").is_some() {
+                    // both servers panic alike; the real server would be gone now
+                    stats.live_panics += 1;
+                    stats.labels.insert("ended:handler-panics-on-both-servers".into());
+                    return Ok(());
+                }
+            }
+        }
+        if !fs_events.is_empty() {
+            // the file-system arm of the server loop
+            let db = &mut live.lsp.compiler_state.db;
+            let r = vcore::catch_panic(|| match categorize_and_filter_events(&fs_events, &config) {
+                Some(changes) => update_sources(db, &changes).map_err(|e| e.iter().map(|x| x.to_string()).collect::<Vec<_>>().join("\n")),
+                None => Ok(()),
+            });
+            match r {
+                Ok(Ok(())) => {}
+                Ok(Err(e)) => return Err(Stop::Fail(Fail::new("server-stops:update-sources-error", format!("step {i}: update_sources returned Err (the server loop returns): {e}")))),
+                Err(p) => return Err(Stop::Fail(Fail::new(format!("panic:{}", panic_class(&p)), format!("step {i}: {p}")))),
+            }
+        }
+        while receiver.try_recv().is_ok() {}
+    }
+    Ok(())
+}
+
+fn truncate(s: &str) -> String {
+    if s.len() > 1500 { format!("{}…", &s[..1500]) } else { s.to_string() }
+}
+
+fn step_json(s: &Step) -> Value {
+    match s {
+        Step::Open { file, text } => json!({"step": "open", "file": file, "text": text}),
+        Step::Change { file, text } => json!({"step": "change", "file": file, "text": text}),
+        Step::Close { file } => json!({"step": "close", "file": file}),
+        Step::DiskWrite { file, text } => json!({"step": "disk-write", "file": file, "text": text}),
+        Step::DiskDelete { file } => json!({"step": "disk-delete", "file": file}),
+        Step::Schema { variant } => json!({"step": "schema", "variant": variant}),
+        Step::Ext { variant } => json!({"step": "ext", "variant": variant}),
+        Step::Gc => json!({"step": "gc"}),
+        Step::Query { file, kind } => {
+            let (k, p) = match kind {
+                QueryKind::Validate => ("validate", 0),
+                QueryKind::Tokens => ("tokens", 0),
+                QueryKind::Format => ("format", 0),
+                QueryKind::Hover(p) => ("hover", *p),
+                QueryKind::Goto(p) => ("goto", *p),
+            };
+            json!({"step": "query", "file": file, "kind": k, "pick": p})
+        }
+    }
+}
+
+fn step_from_json(v: &Value) -> Result<Step, String> {
+    let file = v["file"].as_u64().unwrap_or(0) as u8;
+    let text = || v["text"].as_str().map(|s| s.to_string()).ok_or_else(|| format!("missing text in {v}"));
+    let variant = v["variant"].as_u64().unwrap_or(0) as u8;
+    Ok(match v["step"].as_str().unwrap_or("") {
+        "open" => Step::Open { file, text: text()? },
+        "change" => Step::Change { file, text: text()? },
+        "close" => Step::Close { file },
+        "disk-write" => Step::DiskWrite { file, text: text()? },
+        "disk-delete" => Step::DiskDelete { file },
+        "schema" => Step::Schema { variant },
+        "ext" => Step::Ext { variant },
+        "gc" => Step::Gc,
+        "query" => {
+            let p = v["pick"].as_u64().unwrap_or(0) as u16;
+            let kind = match v["kind"].as_str().unwrap_or("") {
+                "validate" => QueryKind::Validate,
+                "tokens" => QueryKind::Tokens,
+                "format" => QueryKind::Format,
+                "hover" => QueryKind::Hover(p),
+                "goto" => QueryKind::Goto(p),
+                other => return Err(format!("unknown query kind {other:?}")),
+            };
+            Step::Query { file, kind }
+        }
+        other => return Err(format!("unknown step {other:?}")),
+    })
+}
+
+fn history_json(steps: &[Step], warm_up: bool) -> Value {
+    json!({"files": FILES, "warm_up": warm_up, "steps": steps.iter().map(step_json).collect::<Vec<_>>()})
+}
+
+fn history_from_json(v: &Value) -> Result<(Vec<Step>, bool), String> {
+    let mut steps = vec![];
+    for s in v["steps"].as_array().ok_or("steps")? {
+        steps.push(step_from_json(s)?);
+    }
+    Ok((steps, v["warm_up"].as_bool().unwrap_or(false)))
+}
+
+static NEXT_WORKER: AtomicUsize = AtomicUsize::new(0);
+thread_local! {
+    static WORKER: usize = NEXT_WORKER.fetch_add(1, Ordering::SeqCst);
+}
+
+fn worker_root(base: &Path) -> PathBuf {
+    base.join(format!("l{}", WORKER.with(|w| *w))).join("p")
+}
+
+/// First didOpen happens after the first query?
+fn first_open_after_first_query(steps: &[Step]) -> bool {
+    let q = steps.iter().position(|s| matches!(s, Step::Query { .. }));
+    let o = steps.iter().position(|s| matches!(s, Step::Open { .. }));
+    matches!((q, o), (Some(q), Some(o)) if q < o)
+}
+
 fn main() {
-    vcore::inconclusive("lspcheck: not built yet");
+    let args: Args = vcore::parse_args();
+    if args.property != "C21" {
+        vcore::inconclusive(&format!("lspcheck: unknown property {}", args.property));
+    }
+    let report = Report::new(
+        &args,
+        "exploration",
+        "histories of 2-13 steps over four files: didOpen/didChange/didClose, on-disk write/create/delete, schema and \
+         extension edits, garbage collections, and queries (validate_entire_schema + publishDiagnostics parameters, semantic \
+         tokens, formatting, hover and go-to-definition at generated positions); non-trivial = a query is made while an open \
+         buffer differs from its file on disk, or a didClose follows a didChange; distinct by history",
+    );
+    report.engine("stateful");
+    report.engine("inproc");
+    report.assumption("on-disk edits are delivered as the notify events observed for plain write/create/delete under inotify (Modify(Data), Create(File), Remove(File)), through the product's categorize_and_filter_events and update_sources");
+    report.assumption("file contents are ASCII (byte/character offset confusion is C23's business); a field is never defined in two files (order-dependent even between two fresh servers: C14)");
+    report.assumption("a handler panic is compared as an answer; the history ends there (the real server would be gone)");
+    let verbose = std::env::var("VERIF_VERBOSE").is_ok();
+    let base = vcore::scratch_base();
+
+    let run_input = |input: &Value| -> Result<(), Fail> {
+        let (steps, warm_up) = history_from_json(input).map_err(|e| Fail::new("bad-replay-input", e))?;
+        let mut st = Stats::default();
+        match run_history(&steps, &worker_root(&base), warm_up, verbose, &mut st) {
+            Ok(()) => Ok(()),
+            Err(Stop::Fail(f)) => Err(f),
+            Err(Stop::Inconclusive(w)) => {
+                report.note_inconclusive(&w);
+                Ok(())
+            }
+        }
+    };
+
+    if let Some(path) = &args.replay {
+        let v = vcore::read_replay(path);
+        report.case(Some(&v["input"].to_string()), &["replay"]);
+        report.case(Some("replay-marker"), &[]);
+        match run_input(&v["input"]) {
+            Ok(()) => println!("replay: held"),
+            Err(f) => {
+                report.violation("replay", &f, v["input"].clone());
+            }
+        }
+        report.finish();
+    }
+
+    report.run_regressions(run_input);
+
+    // generator switch for the recorded finding: warm the open-file map up before the first query
+    let include = std::env::var("VERIF_C21_INCLUDE").unwrap_or_default();
+    let exclude_first_open = (report.known_findings().iter().any(|k| k.signature == "stale-after-first-open")
+        || std::env::var("VERIF_C21_EXCLUDE").unwrap_or_default().contains("stale-after-first-open"))
+        && !include.contains("stale-after-first-open")
+        && include != "all";
+    report.extra("excluded_switches", json!(if exclude_first_open { vec!["stale-after-first-open"] } else { vec![] }));
+
+    let cases = args.tier.pick(3000u32, 90000u32);
+    let totals = std::sync::Mutex::new((0u64, 0u64, 0u64));
+    let found = vcore::run_prop_parallel(&report, "histories", cases, vcore::num_workers(), history, |steps: &Vec<Step>| {
+        let risky = first_open_after_first_query(steps);
+        let warm_up = risky && exclude_first_open;
+        if warm_up {
+            report.excluded("stale-after-first-open");
+        }
+        let mut st = Stats::default();
+        let r = run_history(steps, &worker_root(&base), warm_up, false, &mut st);
+        {
+            let mut t = totals.lock().unwrap();
+            t.0 += st.queries;
+            t.1 += st.queries_with_dirty_buffer;
+            t.2 += st.live_panics;
+        }
+        let nontrivial = st.queries_with_dirty_buffer > 0 || st.close_after_change;
+        let mut labels: Vec<&str> = st.labels.iter().map(|s| s.as_str()).collect();
+        if risky {
+            labels.push("shape:first-open-after-first-query");
+        }
+        if st.queries_with_dirty_buffer > 0 {
+            labels.push("shape:query-with-dirty-buffer");
+        }
+        if st.close_after_change {
+            labels.push("shape:close-after-change");
+        }
+        report.case(if nontrivial { Some(steps) } else { None }, &labels);
+        report.sample(if nontrivial { "nontrivial" } else { "trivial" }, 2, || history_json(steps, warm_up));
+        match r {
+            Ok(()) => Ok(()),
+            Err(Stop::Inconclusive(w)) => {
+                report.label(&format!("inconclusive:{w}"));
+                Ok(())
+            }
+            Err(Stop::Fail(f)) => Err(f),
+        }
+    });
+    if let Some((steps, fail)) = found {
+        let warm_up = first_open_after_first_query(&steps) && exclude_first_open;
+        report.violation("histories", &fail, history_json(&steps, warm_up));
+    }
+    report.unfreeze();
+    let t = totals.lock().unwrap();
+    report.extra("queries_compared", json!(t.0));
+    report.extra("queries_with_dirty_buffer", json!(t.1));
+    report.extra("histories_ended_by_a_panic_on_both_servers", json!(t.2));
+    drop(t);
+    report.finish();
 }
